@@ -4,6 +4,7 @@ import TxdbusModel.Proofs.Wire.Normal
 import TxdbusModel.Proofs.Wire.ValidWF
 import TxdbusModel.Proofs.Wire.ConfTop
 import TxdbusModel.Proofs.Wire.FuelFree
+import TxdbusModel.Proofs.Wire.NoFds
 /-!
 Property C01 - encoding then decoding any conforming value returns the same value.
 
@@ -399,8 +400,150 @@ example :
 example : allNoVariant [.array (.struct [.array (.basic .y)])] = true ∧
     tyDepthAll [.array (.struct [.array (.basic .y)])] = 4 := by decide
 
+/-! ## State-leak round (2026-09-30): the calls without a descriptor list
+
+The harness now also calls `marshal(sig, values, off, lendian)` / `unmarshal(sig, data, off, lendian)` with the `oobFDs`
+keyword left out (the model's `none`), and decodes the same bytes with different lists.  For conforming values that
+hold no descriptor (`RepFields .. false ..`: the conformance relation with the flag "no list", under which a UNIX_FD
+cannot be represented) the round trip holds without a list, and the decoder's answer is the same for EVERY `fds`
+- no list, or any list whatever it holds (`Proofs/Wire/NoFds`).  The model is a function of its arguments, so "a later
+call behaves like the first" needs no theorem; what these add is that the argument `oobFDs` itself is irrelevant here. -/
+
+/-- C01 without a descriptor list.  Hypotheses as `C01_roundtrip` with `RepFields .. false ..` (no descriptor among the
+values; `lall`, `k'` are then arbitrary); `fds` on the decoding side is arbitrary. -/
+theorem C01_roundtrip_no_list (le : Bool) (ts : List Ty) (pv : PyVal) (items : List PyVal) (vs : List Val)
+    (lall : List PyVal) (k' off : Nat) (bs pre suf : Bytes) (fuel : Nat) (fds : Code.Fds)
+    (hts : allWF ts = true)
+    (hitems : Code.topItems pv = .ok items)
+    (hrep : Code.RepFields lall vs false ts items 0 k')
+    (hkeys : Code.KeysOKList items)
+    (henc : Spec.encodeAll Code.genAlign (endianOf le) ts vs off = some bs)
+    (hpre : pre.length = off) (hfuel : depthAll vs ≤ fuel) :
+    Code.marshal fuel (renderAll ts) pv off le none = .ok (bs.length, bs, none) ∧
+    Code.unmarshal fuel (renderAll ts) (pre ++ bs ++ suf) off le fds =
+      .ok (bs.length, Code.plainList items) :=
+  ⟨Code.NoFds.marshal_eq_spec_noFd Code.genAlign Code.padOK_gen Code.genAlign_pos le ts pv items vs lall k' off bs fuel
+      hitems hrep henc hfuel,
+   Code.unmarshal_eq_spec Code.genAlign Code.padOK_gen Code.genAlign_pos le fds ts vs off bs pre suf _ fuel hts henc hpre
+      (Code.NoFds.fromSpecFields_of_rep_noFd lall fds vs ts items 0 k' hrep hkeys) hfuel⟩
+
+/-- The same with no fuel variable: encoder at `|render ts| + |bytes|`, decoder at `Cost.codeFuel` (what the driver runs). -/
+theorem C01_roundtrip_no_list_fuel_free (le : Bool) (ts : List Ty) (pv : PyVal) (items : List PyVal) (vs : List Val)
+    (lall : List PyVal) (k' off : Nat) (bs pre suf : Bytes) (fds : Code.Fds)
+    (hts : allWF ts = true)
+    (hitems : Code.topItems pv = .ok items)
+    (hrep : Code.RepFields lall vs false ts items 0 k')
+    (hkeys : Code.KeysOKList items)
+    (henc : Spec.encodeAll Code.genAlign (endianOf le) ts vs off = some bs)
+    (hpre : pre.length = off) :
+    Code.marshal ((renderAll ts).length + bs.length) (renderAll ts) pv off le none = .ok (bs.length, bs, none) ∧
+    Code.unmarshal (Cost.codeFuel (renderAll ts) (pre ++ bs ++ suf) off) (renderAll ts) (pre ++ bs ++ suf) off le fds =
+      .ok (bs.length, Code.plainList items) :=
+  ⟨(C01_roundtrip_no_list le ts pv items vs lall k' off bs pre suf _ fds hts hitems hrep hkeys henc hpre
+      (Spec.depthAll_le_sized _ _ ts vs off bs henc)).1,
+   (C01_roundtrip_no_list le ts pv items vs lall k' off bs pre suf _ fds hts hitems hrep hkeys henc hpre
+      (Nat.le_of_lt (Spec.depthAll_le_codeFuel _ _ ts vs off bs pre suf henc hpre))).2⟩
+
+/-- C01 with ONE descriptor list used by several calls: `marshal` is entered with the list holding `k` descriptors already
+(`fdl.take k`: left by earlier calls, successful or failed), appends its own behind them and writes the indices `k ..`;
+`unmarshal` with the list as `marshal` left it returns the values.  (`C01_roundtrip` is the case `k = 0`.) -/
+theorem C01_roundtrip_initial_list (le : Bool) (ts : List Ty) (pv : PyVal) (items : List PyVal) (vs : List Val)
+    (fdl : List PyVal) (k off : Nat) (bs pre suf : Bytes) (fuel : Nat)
+    (hts : allWF ts = true)
+    (hitems : Code.topItems pv = .ok items)
+    (hrep : Code.RepFields fdl vs true ts items k fdl.length)
+    (hkeys : Code.KeysOKList items)
+    (henc : Spec.encodeAll Code.genAlign (endianOf le) ts vs off = some bs)
+    (hpre : pre.length = off) (hfuel : depthAll vs ≤ fuel) :
+    Code.marshal fuel (renderAll ts) pv off le (some (fdl.take k)) = .ok (bs.length, bs, some fdl) ∧
+    Code.unmarshal fuel (renderAll ts) (pre ++ bs ++ suf) off le (some fdl) =
+      .ok (bs.length, Code.plainList items) := by
+  constructor
+  · have h := Code.NoFds.marshal_eq_spec_from Code.genAlign Code.padOK_gen Code.genAlign_pos le ts pv items vs fdl k
+      fdl.length off bs fuel hitems hrep henc hfuel
+    simpa using h
+  · exact Code.unmarshal_eq_spec Code.genAlign Code.padOK_gen Code.genAlign_pos le (some fdl) ts vs off bs pre suf _
+      fuel hts henc hpre
+      (Code.fromSpecFields_of_rep fdl vs true ts items k fdl.length hrep hkeys) hfuel
+
+/-- The hypotheses of `C01_roundtrip_initial_list` are satisfiable with `k = 2`: signature `yh`, values `[Byte(7), 5]`, the
+list `[100, 101]` at entry, `[100, 101, 5]` afterwards; the spec value of the descriptor is its index 2. -/
+example :
+    let ts : List Ty := [.basic .y, .basic .h]
+    let items : List PyVal := [.int .byte 7, .int .plain 5]
+    let vs : List Val := [.int 7, .int 2]
+    let fdl : List PyVal := [.int .plain 100, .int .plain 101, .int .plain 5]
+    allWF ts = true ∧ Code.topItems (.list items) = .ok items ∧
+      Code.RepFields fdl vs true ts items 2 fdl.length ∧ Code.KeysOKList items ∧
+      (Spec.encodeAll Code.genAlign (endianOf true) ts vs 1).isSome = true ∧ fdl.take 2 = [.int .plain 100, .int .plain 101] := by
+  refine ⟨by decide, rfl, ?_, by simp [Code.KeysOKList, Code.KeysOK], by decide, rfl⟩
+  refine ⟨_, _, _, _, 2, rfl, rfl, ?_, ?_⟩
+  · simp only [Code.Rep]
+    exact ⟨.y, rfl, Or.inr ⟨by decide, ⟨_, rfl⟩, rfl⟩⟩
+  refine ⟨_, _, _, _, 3, rfl, rfl, ?_, ⟨rfl, rfl, rfl⟩⟩
+  simp only [Code.Rep]
+  exact ⟨.h, rfl, Or.inl ⟨rfl, rfl, rfl, rfl, rfl, rfl⟩⟩
+
+/-- The hypotheses are satisfiable: `yaiva{sb}`, `[Byte(7), (1, Int32(-1)), 'hi', {'k': True}]`, big endian, offset 3;
+`lall`, `k'` arbitrary (here the empty list, 0). -/
+example :
+    let ts : List Ty := [.basic .y, .array (.basic .i), .variant, .array (.dict (.basic .s) (.basic .b))]
+    let items : List PyVal := [.int .byte 7, .tuple [.int .plain 1, .int .int32 (-1)], .str .plain ['h', 'i'],
+      .dict [(.str .plain ['k'], .bool true)]]
+    let vs : List Val := [.int 7, .array [.int 1, .int (-1)], .variant (.basic .s) (.str [104, 105]),
+      .array [.entry (.str [107]) (.bool true)]]
+    allWF ts = true ∧ Code.topItems (.list items) = .ok items ∧
+      Code.RepFields [] vs false ts items 0 0 ∧ Code.KeysOKList items ∧
+      (Spec.encodeAll Code.genAlign (endianOf false) ts vs 3).isSome = true := by
+  refine ⟨by decide, rfl, ?_, ?_, by decide⟩
+  · refine ⟨_, _, _, _, 0, rfl, rfl, ?_, ?_⟩
+    · simp only [Code.Rep]
+      exact ⟨.y, rfl, Or.inr ⟨by decide, ⟨_, rfl⟩, rfl⟩⟩
+    refine ⟨_, _, _, _, 0, rfl, rfl, ?_, ?_⟩
+    · simp only [Code.Rep]
+      refine ⟨_, _, rfl, trivial, rfl, ?_⟩
+      refine ⟨_, _, 0, rfl, ?_, ?_⟩
+      · simp only [Code.Rep]; exact ⟨.i, rfl, Or.inr ⟨by decide, ⟨_, rfl⟩, rfl⟩⟩
+      refine ⟨_, _, 0, rfl, ?_, ?_⟩
+      · simp only [Code.Rep]; exact ⟨.i, rfl, Or.inr ⟨by decide, ⟨_, rfl⟩, rfl⟩⟩
+      exact ⟨rfl, rfl⟩
+    refine ⟨_, _, _, _, 0, rfl, rfl, ?_, ?_⟩
+    · simp only [Code.Rep]
+      refine ⟨trivial, rfl, ?_, trivial⟩
+      exact ⟨.s, rfl, Or.inr ⟨by decide, ⟨_, _, rfl, by decide⟩, rfl⟩⟩
+    refine ⟨_, _, _, _, 0, rfl, rfl, ?_, ⟨rfl, rfl, rfl⟩⟩
+    simp only [Code.Rep]
+    refine ⟨_, _, rfl, trivial, rfl, ?_⟩
+    refine ⟨_, _, 0, rfl, ?_, ⟨rfl, rfl⟩⟩
+    simp only [Code.Rep]
+    refine ⟨_, _, _, _, 0, rfl, trivial, rfl, ?_, ?_⟩
+    · exact ⟨.s, rfl, Or.inr ⟨by decide, ⟨_, _, rfl, by decide⟩, rfl⟩⟩
+    · exact ⟨.b, rfl, Or.inr ⟨by decide, rfl, rfl⟩⟩
+  · simp only [Code.KeysOKList, Code.KeysOK, Code.KeysOKPairs, Code.plainPairs, Code.plain, and_true, true_and,
+      List.map_cons, List.map_nil]
+    exact ⟨[.str ['k']], rfl, by simp⟩
+
+/-- A descriptor cannot be represented without a list: the premise `RepFields .. false ..` excludes `h` (so the theorem says
+nothing about `marshal('h', [7])` without `oobFDs`, which raises TypeError in the code and in the model). -/
+example (lall : List PyVal) (pv : PyVal) (k k' : Nat) : ¬ Code.RepFields lall [.int 0] false [.basic .h] [pv] k k' := by
+  intro h
+  simp only [Code.RepFields] at h
+  obtain ⟨t, ts, x, xs, k1, ht, _, hr, _⟩ := h
+  simp only [List.cons.injEq] at ht
+  obtain ⟨rfl, _⟩ := ht
+  simp only [Code.Rep] at hr
+  obtain ⟨c, hc, hcase⟩ := hr
+  simp only [Ty.basic.injEq] at hc
+  subst hc
+  rcases hcase with ⟨_, hfd, _⟩ | ⟨hne, _, _⟩
+  · exact absurd hfd (by decide)
+  · exact hne rfl
+
 end Txdbus
 
+#print axioms Txdbus.C01_roundtrip_no_list
+#print axioms Txdbus.C01_roundtrip_initial_list
+#print axioms Txdbus.C01_roundtrip_no_list_fuel_free
 #print axioms Txdbus.C01_marshal_arity
 #print axioms Txdbus.C01_roundtrip_conf
 #print axioms Txdbus.C01_roundtrip_checked
